@@ -51,6 +51,7 @@ def run(ctx):
                        "the oracle classifies must_reject, or must_answer with a predicate-level negative loop; distinct = program texts")
     ctx.assumptions += ["the engine's cycle detector is tied to the Coq classification by differential testing only",
                         "must_reject is relative to the dependency cone of the query and evidence atoms (DESIGN C02)"]
+    cc.IMPL_CPU_TIMEOUT = ctx.n(10, 20)   # CPU seconds per evaluation (a non-terminating grounding costs exactly this)
     ctx.prove("C02/Props.v")
     try:
         so.build(ctx)
